@@ -108,6 +108,7 @@ type HarnessResult struct {
 }
 
 type World struct {
+	skipIntrinsic *ssa.Function // set while a summary falls back to the real code of its function
 	forkSites map[string]int
 	prog    *ssa.Program
 	pi      *progInfo
